@@ -29,6 +29,7 @@
   panic.  The checker `PT.program` and `PT.strictSs` are also evaluated on every AST the REAL parser returns.
 -/
 import TshVerif.Lemmas.ParserTypedBridge
+import TshVerif.Lemmas.ParserSigProg
 import TshVerif.Lemmas.BashTotal
 namespace Tsh.C06
 open Tsh Tsh.Tr Tsh.Parser
@@ -86,6 +87,37 @@ theorem parsed_expressions_are_typed (fuel : Nat) (ctx : Ctx) (hc : CtxOK ctx) (
   have he := ((exprIH_all fuel).expression ctx hc).ok s e s' h
   ⟨he, expr_known e he⟩
 
+/-- **Calls agree with the signatures of the functions they name** (the part of the typing of calls that `PT` cannot
+    state, because a call node keeps no parameter types): in the program the parser builds from a main file - before the
+    unused functions are removed - every call in the file's OWN statements names a function that is declared, by the imported
+    statements in front of them or earlier in the file itself, with exactly the arguments' types as parameter types (so: the
+    right number of arguments, each of the parameter's type) and with the return types the call node is typed with; a
+    function is not known inside its own body. -/
+theorem calls_agree_with_signatures (fs : FileSys) (main : String) (raw : Parsed) (s : PSt)
+    (h : parseRaw fs main = .ok raw s) :
+    ∃ imported own, raw.body = imported ++ own ∧ PT.sigSs (PT.declareAll [] imported) own = true := by
+  unfold parseRaw at h
+  split at h
+  · simp at h
+  · split at h
+    · simp at h
+    · split at h
+      · simp at h
+      · dsimp only at h
+        split at h
+        · rename_i body s1 he
+          simp only [PRes.ok.injEq] at h
+          obtain ⟨rfl, _⟩ := h
+          exact evalProgram_sig _ _ _ _ _ _ _ _ he
+        · simp at h
+        · simp at h
+        · simp at h
+
+/-- the same for every statement the statement parser returns, in any context whose functions have their signatures in `F` -/
+theorem parsed_statement_calls_agree (F : List PT.Sig) (fuel : Nat) (ctx : Ctx) (hc : FuncsIn F ctx) (s s' : PSt) (st : Stmt)
+    (h : evalStatement fuel ctx s = .ok st s') : PT.sigS F st = true :=
+  (sigSIH_all sigIH_all fuel).statement F ctx hc s st s' h
+
 /-- the parser's guarantee implies the emitters' discipline, except for the two constructs of `strict` -/
 theorem parser_typed_and_strict_is_typed (p : Program) (h : PT.program p = true) (hs : PT.strictSs p = true) :
     typedProgram p = true :=
@@ -123,6 +155,19 @@ private def sampleSrc : String :=
 -- the two constructs the parser accepts beyond the emitters' discipline: typed in the sense of `PT`, not strict
 #guard ((accepted "b := \"a\" < \"b\"\n").map fun p => (PT.program p, PT.strictSs p, typedProgram p)) == some (true, false, false)
 #guard ((accepted "a, b := @x(), @y()\n").map fun p => (PT.program p, PT.strictSs p, typedProgram p)) == some (true, false, false)
+-- a function without return value has no value, in brackets either (repaired defect: fix commit "reject a bracketed call of a function without return value")
+#guard (accepted "func f() {\n}\nx := (f())\n").isNone
+#guard (accepted "func f() {\n}\nvar x = ((f()))\n").isNone
+#guard (accepted "func f() {\n}\nfunc g() int {\n\treturn (f())\n}\n").isNone
+#guard (accepted "func m() (int, int) {\n\treturn 1, 2\n}\nx := (m())\n").isNone
+#guard (accepted "func m() (int, int) {\n\treturn 1, 2\n}\na, b := (m())\n").isNone
+#guard (accepted "func m() (int, int) {\n\treturn 1, 2\n}\na, b := m()\n").isSome
+-- calls: wrong number or types of arguments are rejected; the accepted sample agrees with its signatures
+#guard (accepted "func f(a int, b string) int {\n\treturn a\n}\nx := f(1)\n").isNone
+#guard (accepted "func f(a int, b string) int {\n\treturn a\n}\nx := f(1, 2)\n").isNone
+#guard (accepted "func f(a int, b string) int {\n\treturn a\n}\nx := f(1, \"s\", 3)\n").isNone
+#guard (accepted "func f() int {\n\treturn f()\n}\n").isNone
+#guard ((accepted sampleSrc).map (PT.sigSs [])) == some true
 -- the check the parser does not make: a `return` in a nested block with a value of the wrong type (known finding)
 #guard ((accepted "func f() int {\n\tif true {\n\t\treturn \"s\"\n\t}\n\treturn 1\n}\n").map PT.program) == some true
 
